@@ -314,6 +314,14 @@ class Gen:
         rl = (rules if rules is not None else self.unit.get("rules", []))
         sig = self.apply_rules(sig, ["vis"] + [r for r in rl if r.startswith("sig_")], s.path, sig_line, key)
         body = self.apply_rules(body, [r for r in rl if not r.startswith("sig_")], s.path, body_line, key)
+        # constructs the rewrite table must have consumed: if one survives (the statement was edited out of
+        # the rule's shape) the unit is undecided - Verus would otherwise report obligations of code it
+        # only half understands
+        mb = mask(body)
+        for pat in self.unit.get("forbid", []):
+            mm = re.search(pat, mb)
+            if mm:
+                raise Undecided("%s: construct outside the rewrite table after extraction: %r" % (key, body[mm.start():mm.end() + 40].split("\n")[0]))
         # contract injection
         fn_first = self.cur_line()
         if ctr:
@@ -524,6 +532,8 @@ class Gen:
         vxrules._VEC_RECEIVERS.update(self.unit.get('vec_receivers', []))
         vxrules._COPY_VEC_CLONES.clear()
         vxrules._COPY_VEC_CLONES.update(self.unit.get('copy_vec_clones', []))
+        vxrules._FORVEC.clear()
+        vxrules._FORVEC.update(self.unit.get('forvec', []))
         for r in rules:
             fn = getattr(vxrules, "rule_" + r)
             text, apps = fn(text)
